@@ -87,7 +87,7 @@ PROPERTIES['C13'] = {
 }
 
 _INGEST_CUTS = ['_ZN8manifold8Manifold4Impl15CreateHalfedges.*']
-_INGEST_REDIR = {'_ZN8manifold8Manifold4Impl10ReserveIDsEj': 'vf_stub_ReserveIDs'}
+_INGEST_REDIR = {'_ZN8manifold8Manifold4Impl10ReserveIDsEj': 'vf_stub_ReserveIDs', '_ZN8manifold8Manifold4Impl9MakeEmptyENS0_5ErrorE': 'vf_stub_MakeEmpty'}
 # length configurations of (vertProperties, triVerts, mergeFrom, mergeTo, runIndex, runOriginalID, runTransform, runFlags, faceID, halfedgeTangent)
 _C09_CFG = [  # name, lengths, tier, numProp (None = arbitrary)
   ('defaults',        (12, 12, 0, 0, 0, 0, 0, 0, 0, 0),  'q', 3),
@@ -117,7 +117,7 @@ _C09_CFG = [  # name, lengths, tier, numProp (None = arbitrary)
 def _c09(name, lens, tier, numprop=3, entry='h_ingest64', what='MeshGL64'):
     return dict(name=name, harness='c09_ingest.cpp', entry=entry, defs=dict({'VF_LENS': ','.join(map(str, lens))}, **({'VF_NUMPROP': numprop} if numprop is not None else {})),
                 cuts=_INGEST_CUTS, redirect=_INGEST_REDIR, models=['rbtree.h'],
-                unwind={'auto': True, 'start': 2, 'max': 64, 'h_ingest|sym': 49}, recursion={'default': 2}, backends=['minisat'], timeout=1200, object_bits=12, mem_gb=16,
+                unwind={'default': 5, 'h_ingest|sym|fixedvec': 49, 'Rb_tree': 3, 'find_if': 13}, recursion={'default': 2}, backends=['minisat'], timeout=1500, object_bits=12, mem_gb=24,
                 cdefs=['VF_ALLOC_CLASSES=VF_C(4) VF_C(8) VF_C(12) VF_C(16) VF_C(24) VF_C(32) VF_C(48) VF_C(64) VF_C(96) VF_C(192) VF_C(384)'],
                 tiers=['quick', 'thorough'] if tier == 'q' else ['thorough'],
                 claim='Impl::Impl(%s) up to the call of CreateHalfedges, numProp %s, vector lengths %s (vertProperties, triVerts, mergeFromVert, mergeToVert, runIndex, runOriginalID, runTransform, runFlags, faceID, halfedgeTangent): memory safe, no div-by-zero / overflow / throw for every tolerance and every content; early returns are empty with an error' % (what, ('= %s' % numprop) if numprop is not None else 'ARBITRARY', lens),
@@ -128,7 +128,9 @@ PROPERTIES['C09'] = {
   'level_note': 'One query per length configuration (symbolic-length heap blocks make CBMC fall back to array theory and run out of memory); 4 vertices x 3 properties, 4 triangles. Everything from CreateHalfedges on is cut (the success path ends there); ReserveIDs returns an arbitrary id; std::map via models/rbtree.h (unbalanced BST). Allocation failure is out of scope. Numeric argument guards: see C17 circular_segments. OBJ text, polygon/point-set inputs and status propagation through manifold.cpp are outside.',
   'obligations': [_c09('ingest64_' + n, l, t, np) for n, l, t, np in _C09_CFG] + [
       _c09('ingest32_runs_3_2_full', (12, 12, 0, 0, 3, 2, 24, 2, 4, 0), 't', 3, entry='h_ingest32', what='MeshGL'),
-      _c09('ingest32_anyprop_small', (4, 3, 1, 1, 1, 1, 12, 1, 1, 4), 'q', None, entry='h_ingest32', what='MeshGL')],
+      _c09('ingest32_anyprop_small', (4, 3, 1, 1, 1, 1, 12, 1, 1, 4), 'q', None, entry='h_ingest32', what='MeshGL'),
+      dict(name='makeempty', harness='c09_ingest.cpp', entry='h_makeempty', defs={'VF_REAL_MAKEEMPTY': 1, 'VF_LENS': '0,0,0,0,0,0,0,0,0,0'}, models=['rbtree.h'], unwind={'default': 7, 'Rb_tree': 3}, recursion={'default': 2}, backends=['minisat'], timeout=900, object_bits=12, mem_gb=16,
+           claim='Impl::MakeEmpty(status) from an arbitrary small Impl: status set, every container emptied, relation map cleared (the ladder obligations replace MakeEmpty by a recording stub and rely on this)', bounds='<=2 vertices, <=2 triangles, optional relation entry, every Error value', targets=['impl.cpp Manifold::Impl::MakeEmpty'])],
 }
 
 PROPERTIES['C11'] = {
@@ -172,13 +174,13 @@ PROPERTIES['C05'] = {
   'level_note': 'Storage level only. The shared_ptr<const Impl> discipline of manifold.cpp/csg_tree.cpp, CrossSection PathImpl and the MakeUnique call sites inside mesh algorithms are outside this check (DESIGN.md C05). Vectors of <=3 ints, <=2 operations.',
   'obligations': [
   ] + [
-    dict(name='sharedvec_cfg%d' % c, harness='c05_vec.cpp', entry='h_sharedvec', defs={'VF_CFG': c, 'VF_N': 2}, backends=['minisat'], timeout=900, unwind={'default': 5}, cbmc=['--memory-leak-check'], object_bits=11,
+    dict(name='sharedvec_cfg%d' % c, harness='c05_vec.cpp', entry='h_sharedvec', defs={'VF_CFG': c, 'VF_N': 2}, backends=['minisat'], timeout=1200, unwind={'default': 5}, cbmc=['--memory-leak-check', '--slice-formula'], object_bits=11,
          cdefs=['VF_ALLOC_CLASSES=VF_C(4) VF_C(8) VF_C(12) VF_C(16) VF_C(24) VF_C(512)', 'VF_ALLOC_STRICT'], mem_gb=20,
          claim='SharedVec<int>, sharing configuration %d of 5: copy/move/assign/MakeUnique/push_back/resize/clear/pop_back/operator[] on one handle never change another handle; no leak, no double free; every mutator reaches AssertUnique with a unique block' % c,
          bounds='3 handles, contents <=2 symbolic ints, 1 arbitrary operation (8 kinds) on an arbitrary handle', targets=['src/vec.h Vec<int,true>'])
     for c in range(5)
   ] + [
-    dict(name='halfedges', harness='c05_vec.cpp', entry='h_halfedges', backends=['minisat'], timeout=900, unwind={'default': 8}, cbmc=['--memory-leak-check'], object_bits=11, mem_gb=20,
+    dict(name='halfedges', harness='c05_vec.cpp', entry='h_halfedges', backends=['minisat'], timeout=1200, unwind={'default': 8}, cbmc=['--memory-leak-check', '--slice-formula'], object_bits=11, mem_gb=20,
          cdefs=['VF_ALLOC_CLASSES=VF_C(4) VF_C(12) VF_C(24) VF_C(28) VF_C(48) VF_C(512)'],
          claim='Halfedges wrappers (MakeUnique, MakeInvalid, Set, push_back, resize, clear) on one handle leave a sharing handle unchanged', bounds='<=6 halfedges, 1 operation', targets=['src/shared.h Halfedges']),
   ],
@@ -281,14 +283,14 @@ PROPERTIES['C12'] = {
   'level_text': 'Bounded model checking of the real Hull and Simplify kernels of CrossSection: HullImpl on every multiset of <=4 lattice points returns a strictly convex counter-clockwise polygon over input points that contains every input point (exact integer orientation oracle); SimplifyRing returns an in-order subsequence with >=3 vertices in which, if more than 3 remain, every vertex deviates by at least the tolerance.',
   'level_note': 'Hull and Simplify clauses only; Offset joins, Decompose and monotonicity in delta are outside this check. Lattice radius 2, <=4 points / ring of <=5; SimplifyRing arithmetic decided at IEEE half precision. libstdc++ stable_sort/priority_queue are executed as compiled (real code).',
   'obligations': [
-    dict(name='hull_n4', harness='c12_cross.cpp', cdefs=['VF_ALLOC_CLASSES=VF_C(4) VF_C(5) VF_C(12) VF_C(16) VF_C(20) VF_C(32) VF_C(48) VF_C(64) VF_C(80) VF_C(96) VF_C(128)'], mem_gb=20, entry='h_hull', defs={'VF_LEN': 4, 'VF_R': 2}, models=['stdlib.h'], unwind={'auto': True, 'start': 2, 'max': 8, 'h_hull': 5}, recursion={'default': 2},
-         backends=['minisat'], timeout=1200, object_bits=12,
+    dict(name='hull_n4', harness='c12_cross.cpp', cdefs=['VF_ALLOC_CLASSES=VF_C(4) VF_C(5) VF_C(12) VF_C(16) VF_C(20) VF_C(32) VF_C(48) VF_C(64) VF_C(80) VF_C(96) VF_C(128)'], mem_gb=20, entry='h_hull', defs={'VF_LEN': 4, 'VF_R': 2}, models=['stdlib.h'], unwind={'default': 5}, recursion={'default': 2}, cbmc=['--slice-formula'],
+         backends=['minisat'], timeout=1500, object_bits=12,
          claim='HullImpl: vertices are input points; if the points are not all collinear the result has >=3 vertices, is strictly convex CCW and contains every input point', bounds='4 lattice points in [-2,2]^2 (duplicates, collinear allowed)', targets=['cross_section.cpp HullImpl, HullBacktrack', 'polygon.cpp CCW']),
-    dict(name='hull_n3', harness='c12_cross.cpp', cdefs=['VF_ALLOC_CLASSES=VF_C(4) VF_C(5) VF_C(12) VF_C(16) VF_C(20) VF_C(32) VF_C(48) VF_C(64) VF_C(80) VF_C(96) VF_C(128)'], mem_gb=20, entry='h_hull', defs={'VF_LEN': 3, 'VF_R': 3}, models=['stdlib.h'], unwind={'auto': True, 'start': 2, 'max': 8, 'h_hull': 4}, recursion={'default': 2},
-         backends=['minisat'], timeout=900, object_bits=12,
+    dict(name='hull_n3', harness='c12_cross.cpp', cdefs=['VF_ALLOC_CLASSES=VF_C(4) VF_C(5) VF_C(12) VF_C(16) VF_C(20) VF_C(32) VF_C(48) VF_C(64) VF_C(80) VF_C(96) VF_C(128)'], mem_gb=20, entry='h_hull', defs={'VF_LEN': 3, 'VF_R': 3}, models=['stdlib.h'], unwind={'default': 4}, recursion={'default': 2}, cbmc=['--slice-formula'],
+         backends=['minisat'], timeout=1500, object_bits=12,
          claim='HullImpl on 3 points', bounds='3 lattice points in [-3,3]^2', targets=['cross_section.cpp HullImpl']),
-    dict(name='simplify_n4', harness='c12_cross.cpp', cdefs=['VF_ALLOC_CLASSES=VF_C(4) VF_C(5) VF_C(12) VF_C(16) VF_C(20) VF_C(32) VF_C(48) VF_C(64) VF_C(80) VF_C(96) VF_C(128)'], mem_gb=20, entry='h_simplify', defs={'VF_LEN': 4, 'VF_R': 2}, models=['stdlib.h'], real='f16', unwind={'auto': True, 'start': 2, 'max': 16, 'h_simplify': 5}, recursion={'default': 2},
-         backends=['minisat'], timeout=1200, object_bits=12,
+    dict(name='simplify_n4', harness='c12_cross.cpp', cdefs=['VF_ALLOC_CLASSES=VF_C(4) VF_C(5) VF_C(12) VF_C(16) VF_C(20) VF_C(32) VF_C(48) VF_C(64) VF_C(80) VF_C(96) VF_C(128)'], mem_gb=20, entry='h_simplify', defs={'VF_LEN': 4, 'VF_R': 2}, models=['stdlib.h'], real='f16', unwind={'default': 6, 'heap': 4}, recursion={'default': 2}, cbmc=['--slice-formula'],
+         backends=['minisat'], timeout=1500, object_bits=12,
          claim='SimplifyRing: in-order subsequence, size >= 3, remaining vertices deviate >= tol when more than 3 remain', bounds='ring of 4 lattice points in [-2,2]^2, tol any binary16 value |tol|<=16', targets=['cross_section.cpp SimplifyRing']),
   ],
 }
@@ -343,7 +345,7 @@ PROPERTIES['C01'] = {
 }
 
 _C08_OBL = dict(name='export_t3', harness='c08_export.cpp', entry='h_export', defs={'VF_T': 3, 'VF_V': 3, 'VF_M': 3}, models=['rbtree.h', 'stdlib.h'],
-     unwind={'auto': True, 'start': 2, 'max': 16, 'h_export': 13}, recursion={'default': 3}, backends=['minisat'], timeout=1500, object_bits=12, mem_gb=20,
+     unwind={'default': 4, 'h_export': 13}, recursion={'default': 2}, cbmc=['--slice-formula'], backends=['minisat'], timeout=1800, object_bits=12, mem_gb=24,
      cdefs=['VF_ALLOC_CLASSES=VF_C(1) VF_C(2) VF_C(4) VF_C(8) VF_C(12) VF_C(16) VF_C(24) VF_C(32) VF_C(36) VF_C(48) VF_C(64) VF_C(72) VF_C(96) VF_C(128) VF_C(192) VF_C(256) VF_C(288) VF_C(384) VF_C(512)'],
      claim='GetMeshGLImpl<double,uint64_t> on a derived (non-original) Impl with 3 triangles over 3 mesh instances: run table well formed (numRun+1 non-decreasing indices from 0 to 3*numTri, multiples of 3, runs with triangles sorted by originalID), every output triangle is exactly one source triangle and carries that triangle\'s vertex indices, its three halfedge tangents, its face ID, and sits in a run whose originalID / transform / backSide / hasNormals are those of its own mesh instance; positions exported verbatim',
      bounds='3 triangles, 3 vertices, 3 mesh instances with arbitrary originalIDs in 0..2, arbitrary finite transforms/tangents/positions, numProp = 0',
